@@ -149,7 +149,7 @@ def unsafe_inventory(under_contract):
     return {"unsafe_blocks_total": total, "unsafe_blocks_in_functions_under_contract": covered, "unsafe_blocks_not_covered": open_sites}
 
 
-STANDIN_PROPS = {"C01", "C02", "C03", "C04", "C05", "C06", "C07", "C08", "C09", "C10", "C11", "C12", "C14", "C13", "C15", "C16", "C18", "C19", "C20"}
+STANDIN_PROPS = {"C01", "C02", "C03", "C04", "C05", "C06", "C07", "C08", "C09", "C10", "C11", "C12", "C14", "C13", "C15", "C16", "C17", "C18", "C19", "C20"}
 
 
 def uncovered(prop):
@@ -165,6 +165,13 @@ def assumptions(prop):
 
 def run(prop, tier, seed):
     r = run_kani(prop, tier, seed)
+    if prop == "C17":
+        r = dict(r)
+        r["level"] = "other"
+        r["explanation"] = ("C17 is decided in two labelled parts: (1) contract proof (Verus) that AdjacencyList::complete equals its definition for an "
+                            "arbitrary thread count t >= 1; (2) bounded stand-in (NOT proof): the remaining thread-parallel functions and the seeded "
+                            "AdjacencyMap generators are executed against their single-threaded definitions under CPU affinities that make "
+                            "available_parallelism() return the listed thread counts; thread interleavings are not controlled")
     return r
 
 
@@ -222,8 +229,16 @@ def _search(prop, seed, failures, tier="quick"):
         seeds = [seed] if tier == "quick" else [seed, seed + 1, seed + 2]
         p = None
         total = 0
-        for sd in seeds:
-            p = subprocess.run([exe, prop, str(sd)], capture_output=True, text=True, timeout=300, env=env2)
+        runs = [([], sd) for sd in seeds]
+        if prop == "C17":
+            # C17 quantifies over CPU-affinity configurations: run the threaded-function search under several affinities,
+            # so that available_parallelism() takes those values (bounded: the listed thread counts only)
+            ncpu = os.cpu_count() or 1
+            ks = [1, 2, 3, 5, 16] if tier == "quick" else list(range(1, 17))
+            ks = sorted(set(min(k, ncpu) for k in ks))
+            runs = [(["taskset", "-c", "0-%d" % (k - 1)] if k > 1 else ["taskset", "-c", "0"], seed) for k in ks]
+        for pre, sd in runs:
+            p = subprocess.run(pre + [exe, prop, str(sd)], capture_output=True, text=True, timeout=300, env=env2)
             mm = re.search(r"evaluated=(\d+)", p.stdout)
             total += int(mm.group(1)) if mm else 0
             if "FOUND " in p.stdout or "NONE" not in p.stdout:
